@@ -166,7 +166,8 @@ def build(sc):
             return self._v_cap
 
         def get_work_order_cost(self, tag):
-            return self._v_cost
+            # state-dependent on purpose (Model/Floor.v wo_cost_now): a surcharge while the machine is shut down
+            return self._v_cost + (0 if self.is_operational() else self._v_dur)
 
     class BatchGen(PartGenerator):
         def __init__(self, prefix, value, quality, n):
